@@ -312,7 +312,20 @@ def k12_device_id(F, R, M, roles):
                 if not (v[3][0][0] == 'call' and v[3][0][2].endswith('::position')):
                     bad = 'the length is not the position of the first NUL byte'
             else:
-                bad = 'unrecognised length computation %s' % fmt(v)[:80]
+                # the same selection written as a match / if-let on the search result: on the found edge the position itself,
+                # on the not-found edge 20 (or the array's length)
+                pos = [(c, x) for c in p.conds if c[0][0] == 'discr' for x in subterms(c[0]) if x[0] == 'call' and x[2].endswith('::position')]
+                if not pos:
+                    if not any(x[0] == 'call' and x[2].endswith('::position') for x in subterms(v)):
+                        bad = 'the length is not the position of the first NUL byte: %s' % fmt(v)[:60]
+                    continue        # another way of using the search result: not judged
+                c = pos[0][0]
+                found = (c[1][0] == 'in' and 0 not in c[1][1]) or (c[1][0] == 'notin' and 0 in c[1][1])
+                if found:
+                    if not any(x[0] == 'call' and x[2].endswith('::position') for x in subterms(v)):
+                        bad = 'with a NUL byte present the length reported is %s, not its position' % fmt(v)[:60]
+                elif not (const_int(v) == 20 or (v[0] == 'call' and v[2].endswith('::len'))):
+                    bad = 'an id without a NUL byte is reported with length %s instead of 20' % fmt(v)[:60]
         R.check(bad is None and bool(paths), 'K12', 'device_id:length', where, 'length = position of the first NUL, else 20', 'device id: %s' % bad)
 
 
